@@ -4,7 +4,7 @@ Decides (DESIGN §3/C04): binding-power *relations* read off Token::lbp, the
 projection threshold, the Pratt loop shape, the power passed to every recursive
 operand parse, and the node vocabulary each arm constructs.
 """
-from ..analysis import Branches, Origins, cfg_cycles, edge_dominates, fmt_terms
+from ..analysis import strip_through, Branches, Origins, cfg_cycles, edge_dominates, fmt_terms
 from ..parsing import (ALL_TOKENS, AST, P, TOKEN, first_discr_switch, lbp_table,
                        promoted_token, region, region_aggs, region_calls, token_of_terms)
 
@@ -213,7 +213,7 @@ def check_pratt_loop(ctx, lib):
     ctx.check(ok, rule, "guard", f"loop continues iff rbp < lbp(peek(0)) — strict (found {op}({fmt_terms([lhs])}, {fmt_terms([rhs])}))", b.span)
     ctx.check(tt in cyc and ft not in cyc, rule, "guard-polarity", "the true branch of the guard continues the loop, the false branch leaves it", b.span)
     # result is the accumulated left operand
-    ret = o.of_local(0)
+    ret = {strip_through(t) for t in o.of_local(0)}
     ok = all(t[0] == "call" and t[1] in (P + "nud", P + "led") for t in ret)
     ctx.check(ok, rule, "result", f"expr returns the accumulated left operand (origins: {fmt_terms(ret)})", b.span)
 
